@@ -547,8 +547,8 @@ Fixpoint jdecode (fx : bool) (s : schema) (j : json) {struct s} : res value :=
       end
   | SByteArrO ptr n code key =>
       (* after b4a46ea / 74faee1 the decoder mirrors the encoder: bare hex string without an object type, object form
-         with one (behind a pointer: only that form, type code not checked; by value also the bare string, and the
-         "type" entry is verified like that of a struct since 221b25a).
+         with one (behind a pointer: only that form; by value also the bare string); the "type" entry of the object form
+         is verified like that of a struct (221b25a, 56e687c).
          Before ([fx = false]): *[n]byte needed registered type settings and the object form; a by-value array had
          to be a string (unchecked assertion). *)
       let hex (x : string) := let* b := decode_hex x in Ok (VStr (fit n b)) in
@@ -557,7 +557,8 @@ Fixpoint jdecode (fx : bool) (s : schema) (j : json) {struct s} : res value :=
       if ptr then
         let* r := match code, j with
                   | None, JStr x => if fx then hex x else Err EUnsupported
-                  | Some _, JObj o => fromobj o
+                  | Some _, JObj o => if fx then match check_code code o with Some e => Err e | None => fromobj o end
+                                      else fromobj o   (* "type" verified since 56e687c *)
                   | None, JObj o => if fx then Err EShape else fromobj o
                   | _, _ => Err EShape
                   end in Ok (VPtr r)
